@@ -1,21 +1,7 @@
-use dashu_int::{fast_div::ConstDivisor, UBig};
-use dvh::rng::Rng;
+use dashu_base::BitTest;
+use dashu_float::DBig;
 fn main() {
-    let mut r = Rng::for_case(1, "dbg", 0);
-    let mut fails = std::collections::BTreeMap::new();
-    for n in [25usize, 47, 49, 51, 53, 55, 97, 99] {
-        for el in [1usize, 2, 3, 5, 10, 24, 25, 26, 40, 48] {
-            let mut cnt = 0;
-            for _ in 0..40 {
-                let m: Vec<u64> = (0..n).map(|_| r.u64() | 1).collect();
-                let a: Vec<u64> = (0..el.min(n)).map(|_| r.u64() | 1).collect();
-                let ring = ConstDivisor::new(UBig::from_words(&m));
-                let x = ring.reduce(UBig::from_words(&a));
-                let res = std::panic::catch_unwind(std::panic::AssertUnwindSafe(|| x.inv()));
-                if res.is_err() { cnt += 1; }
-            }
-            if cnt > 0 { fails.insert((n, el), cnt); }
-        }
-    }
-    println!("{:?}", fails);
+    println!("(-1i8).bit(7) = {}  (-1i64).bit(63) = {}  (-128i8).bit(7) = {} (5i8).bit(7) = {} (-1i8).bit(3) = {} (-1i8).bit(100) = {}", (-1i8).bit(7), (-1i64).bit(63), (-128i8).bit(7), 5i8.bit(7), (-1i8).bit(3), (-1i8).bit(100));
+    let ni = -DBig::INFINITY;
+    println!("-INF == NEG_INF: {}   -INF == INF: {}   -(NEG_INF) == INF: {}", ni == DBig::NEG_INFINITY, ni == DBig::INFINITY, -DBig::NEG_INFINITY == DBig::INFINITY);
 }
